@@ -1,6 +1,7 @@
 package gosym
 
 import (
+	"fmt"
 	"go/types"
 	"math/big"
 )
@@ -79,9 +80,14 @@ func registerTime() {
 // JSONBox is the content of a []byte produced by json.Marshal.
 func registerJSON() {
 	reg := RegisterIntrinsic
+	DeclareUF("jsonhas", []Sort{SStr, SStr}, SBool, nil)
+	DeclareUF("jsonval", []Sort{SStr, SStr}, SStr, nil)
 	reg("encoding/json.Valid", func(c *CallCtx, a []Value) []Outcome {
 		b := a[0].(*BytesV)
 		if b.Blob != nil && b.Blob.JSON {
+			return ret1(TTrue)
+		}
+		if _, ok := c.S.W.Ghost[fmt.Sprintf("jsonbox:%d", b.T.ID)]; ok {
 			return ret1(TTrue)
 		}
 		return ret1(App("jsonvalid", b.T))
@@ -94,7 +100,10 @@ func registerJSON() {
 		fz := c.E.freeze(c.S, iv.V, iv.T)
 		// the text is an uninterpreted function of nothing we know: a fresh string tied to the box
 		t := FreshVar("json", SStr)
-		return ret1(tuple(&BytesV{T: t, NilT: TFalse, Blob: &Blob{Typ: iv.T, Val: fz, JSON: true}}, &IfaceV{}))
+		blob := &Blob{Typ: iv.T, Val: fz, JSON: true}
+		// the text stays tied to its content when it travels as a string (record fields)
+		c.S.W.Ghost[fmt.Sprintf("jsonbox:%d", t.ID)] = &OpaqueV{Kind: "jsonbox", Data: blob}
+		return ret1(tuple(&BytesV{T: t, NilT: TFalse, Blob: blob}, &IfaceV{}))
 	})
 	reg("encoding/json.Unmarshal", func(c *CallCtx, a []Value) []Outcome {
 		b := a[0].(*BytesV)
@@ -104,6 +113,11 @@ func registerJSON() {
 			throwf("json.Unmarshal into %s", showValue(iv))
 		}
 		et := iv.T.Underlying().(*types.Pointer).Elem()
+		if b.Blob == nil {
+			if g, ok := c.S.W.Ghost[fmt.Sprintf("jsonbox:%d", b.T.ID)]; ok {
+				b = &BytesV{T: b.T, NilT: b.NilT, Blob: g.(*OpaqueV).Data.(*Blob)}
+			}
+		}
 		if b.Blob != nil && b.Blob.JSON {
 			if types.Identical(b.Blob.Typ, et) || types.Identical(b.Blob.Typ, iv.T) {
 				v := b.Blob.Val
@@ -116,6 +130,21 @@ func registerJSON() {
 				return ret1(&IfaceV{})
 			}
 			throwf("json.Unmarshal of %s box into %s", b.Blob.Typ, et)
+		}
+		// arbitrary attacker-chosen text decoded into a map: unknown content as a function of (text, key)
+		if mt, ok := et.Underlying().(*types.Map); ok {
+			if kb, ok := mt.Key().Underlying().(*types.Basic); ok && kb.Info()&types.IsString != 0 {
+				if vb, ok := mt.Elem().Underlying().(*types.Basic); ok && vb.Info()&types.IsString != 0 {
+					bad := Not(App("jsonvalid", b.T))
+					text := b.T
+					return []Outcome{
+						{Cond: Not(bad), Do: func(st *State) {
+							st.store(p, &MapRef{Obj: st.alloc(&MapObj{Open: true, Tag: "jsonmap", Src: text})})
+						}, Ret: &IfaceV{}},
+						{Cond: bad, Ret: newErr("json.Unmarshal", nil)},
+					}
+				}
+			}
 		}
 		// arbitrary attacker-chosen text: a fresh value of the target type, memoised per text term; may fail
 		key := "json:" + et.String() + ":" + b.T.String()
